@@ -127,6 +127,7 @@ var (
 	servs  map[uint64]*authority.Servers
 	meta   *middleware.ResponseMeta
 	replCache *cache.Cache
+	glueRes   *resolver.Resolver
 	metaIn []int64 // oracle: every non-zero deadline folded so far
 )
 
@@ -227,7 +228,7 @@ func execFn(f []string) vlib.Res {
 	}
 	if f[1] == "new" {
 		switch f[0] {
-		case "mc", "mnz", "mttl", "nsttl", "lease", "rem", "repl", "dpx", "wr":
+		case "mc", "mnz", "mttl", "nsttl", "lease", "rem", "repl", "dpx", "wr", "hit", "glue":
 			return vlib.Res{Impl: "ok"} // case header of a stateless group (shrinker anchor)
 		}
 	}
@@ -372,6 +373,44 @@ func execFn(f []string) vlib.Res {
 			}
 		}
 		return vlib.Res{Impl: fmtT(got) + " " + strconv.FormatUint(gk, 10), Oracle: or, Tags: "nt"}
+	case "hit":
+		// a cache hit folds the entry's lifetime into the request: hit <have|z> <stored> <ttl ns> <cut|z> <cutKey>
+		have, stored, ttl, cut, ck := parseT(f[1]), parseT(f[2]), time.Duration(vlib.AtoI64(f[3])), parseT(f[4]), vlib.AtoU64(f[5])
+		got, gk := cache.VerifC08EntryBound(have, stored, ttl, cut, ck)
+		or := "ok"
+		end := stored.Add(ttl)
+		switch {
+		case got.IsZero():
+			or = "FAIL sig=cache-hit/request-not-bounded-by-entry"
+		case got.After(end):
+			or = "FAIL sig=cache-hit/request-outlives-entry-ttl"
+		case !cut.IsZero() && got.After(cut):
+			or = "FAIL sig=cache-hit/request-outlives-entry-cut"
+		case !have.IsZero() && got.After(have):
+			or = "FAIL sig=cache-hit/request-bound-raised"
+		}
+		return vlib.Res{Impl: fmt.Sprintf("%s %d", fmtT(got), gk), Oracle: or, Tags: "nt"}
+	case "glue":
+		// the referral's glue is what the parent says now: glue <octet in the glue cache|0> <octet in the referral|0>
+		if glueRes == nil {
+			cfg := new(config.Config)
+			cfg.RootServers = []string{"192.0.2.250:53"}
+			cfg.Maxdepth = 30
+			cfg.DNSSEC = "off"
+			cfg.Directory = "/verif/build/tmp-l3"
+			glueRes = resolver.NewResolver(cfg)
+		}
+		servers, inCache := resolver.VerifC08Glue(glueRes, byte(vlib.Atoi(f[1])), byte(vlib.Atoi(f[2])))
+		or := "ok"
+		ref := vlib.Atoi(f[2])
+		if ref != 0 {
+			if len(servers) != 1 || servers[0] != ref {
+				or = fmt.Sprintf("FAIL sig=checkGlueRR/referral-glue-not-used servers=%v want=%d", servers, ref)
+			} else if len(inCache) != 1 || inCache[0] != ref {
+				or = fmt.Sprintf("FAIL sig=checkGlueRR/stale-address-kept-in-glue-cache cache=%v want=%d", inCache, ref)
+			}
+		}
+		return vlib.Res{Impl: fmt.Sprintf("servers=%v cache=%v", servers, inCache), Oracle: or, Tags: "nt"}
 	case "wr":
 		// every REAL write entry point of the answer cache keeps the delegation cut it is handed:
 		// wr <key|subq|scoped|prefetch|prefetch-ecs> <pos|nx|nodata> <ttl s> <cut|z> <cutKey> <ecs cap s>
@@ -515,7 +554,26 @@ func genTTLs(r *vlib.R, allowEmpty bool) string {
 func genFnCase(r *vlib.R, emit func(string)) int {
 	n := 0
 	e := func(s string) { emit(s); n++ }
-	switch r.Intn(11) {
+	switch r.Intn(12) {
+	case 11: // cache hits bound the request; referral glue vs the glue cache
+		e("hit new")
+		for i := 0; i < 6; i++ {
+			stored := int64(r.Intn(1000)) * 1e9
+			ttl := vlib.Pick(r, []int64{5e9, 1e9, 60e9, 3600e9, 86400e9})
+			cut := "z"
+			if r.Chance(3, 4) {
+				cut = tilde(r, fmt.Sprint(stored+vlib.Pick(r, []int64{1e9, 2e9, 5e9, 5e9, 60e9, 3600e9})+int64(r.Range(-1, 1))))
+			}
+			have := "z"
+			if r.Chance(1, 2) {
+				have = fmt.Sprint(stored + vlib.Pick(r, []int64{1e9, 3e9, 5e9, 30e9, 7200e9}))
+			}
+			e(fmt.Sprintf("hit %s %d %d %s %d", have, stored, ttl, cut, 1+r.Intn(9)))
+		}
+		e("glue new")
+		for i := 0; i < 4; i++ {
+			e(fmt.Sprintf("glue %d %d", vlib.Pick(r, []int{0, 11, 12}), vlib.Pick(r, []int{0, 11, 12, 13})))
+		}
 	case 10: // the write entry points of the answer cache
 		e("wr new")
 		for i := 0; i < 6; i++ {
